@@ -368,9 +368,8 @@ static void gap_trials(void) {
       for (int kind = 0; kind < 3; kind++) {
         if (kind == 1 && BASES[b] > 65536 && (d & 3))
           continue; /* create + destroy pairs are slower: fewer of the long ones */
-        int p = rand_r(&rs) % nprog, mA = rand_r(&rs) % NMASK, mB = (mA + 1 + rand_r(&rs) % (NMASK - 1)) % NMASK;
-        if (strlen(prog[p]) > 8000)
-          p = 0;
+        /* program 0 of the list consists of option-sensitive lines: the two uses differ in their bytes */
+        int p = 0, mA = rand_r(&rs) % NMASK, mB = (mA + 1 + rand_r(&rs) % (NMASK - 1)) % NMASK;
         struct ref got;
         one(p, mA, 0, 1, buf, &got, &rs, 0, 0, 99);
         gap_d = BASES[b] + d;
